@@ -53,6 +53,7 @@ PARAM_TEMPLATES = [
     ('SELECT date, account, number WHERE date >= {0} AND account ~ {1}', ['date', 'acct'], ()),
     ('SELECT account, sum(number) AS s WHERE number > {0} GROUP BY account HAVING count(number) > {1}', ['dec', 'int'], ()),
     ('SELECT a FROM #t0 WHERE c IN {0}', ['strlist'], ()),
+    ('SELECT a, length({0}) AS n FROM #t0 WHERE c NOT IN {0} OR c IN {1}', ['strlist', 'strlist'], ()),
     ('SELECT {0} AS n, a FROM #t0', ['null'], ()),
     ('SELECT a, b FROM #t0 WHERE b > {0} AND d < {1}', ['dec', 'date'], ()),
     ('SELECT date_add({0}, {1}) AS x, a FROM #t0 LIMIT 3', ['date', 'int'], ()),
@@ -168,7 +169,11 @@ def gen_slot(rng, t):
     if t == 'pday':
         return rng.randint(1, 28)
     if t == 'strlist':
-        return rng.sample(['a', 'b', 'abc', 'zz', 'x y', 'USD'], rng.randint(1, 3))
+        v = rng.sample(['a', 'b', 'abc', 'zz', 'x y', 'USD'], rng.randint(1, 3))
+        if rng.random() < 0.4:
+            v = v + [rng.choice(v)]          # a list with a repeated element is a legal parameter
+            rng.shuffle(v)
+        return v
     if t == 'null':
         return None
     if t == 'lpat':
